@@ -354,13 +354,13 @@ theorem classify_eraseF (f : FieldE GoTypeE) : classify (eraseF f) = classify f 
   | true => simp only [if_true, isStructE_eraseEmbE]
 
 /-- what dominance looks at -/
-def tkey (t : TField) : List Nat × String × Bool := (t.index, t.name, t.tagged)
+def tkey (t : TField) : List Nat × String × Bool × Bool × Bool := (t.index, t.name, t.tagged, t.omitempty, t.omitzero)
 
 theorem isDominant_key {all all' : List TField} {f f' : TField} (ha : all'.map tkey = all.map tkey) (hf : tkey f' = tkey f) :
     isDominant all' f' = isDominant all f := by
   have key : ∀ (l : List TField) (g : TField), isDominant l g =
       (l.map tkey).all fun o => o.1 == (tkey g).1 || o.2.1 != (tkey g).2.1 ||
-        (decide ((tkey g).1.length < o.1.length) || ((tkey g).1.length == o.1.length && (tkey g).2.2 && !o.2.2)) := by
+        (decide ((tkey g).1.length < o.1.length) || ((tkey g).1.length == o.1.length && (tkey g).2.2.1 && !o.2.2.1)) := by
     intro l g
     unfold isDominant
     rw [List.all_map]
@@ -966,5 +966,71 @@ theorem decodableE_erase_aux : ∀ (n : Nat),
 theorem decodableE_erase (T : GoTypeE) (j : Json) : decodableE (eraseE T) j = decodableE T j :=
   (decodableE_erase_aux (wt T)).1 T (Nat.le_refl _) j
 
+/-! ## encoding/json's field list -/
+
+theorem filter_map_key {α κ : Type} (k : α → κ) (q : κ → Bool) : ∀ (l' l : List α), l'.map k = l.map k →
+    (l'.filter fun x => q (k x)).map k = (l.filter fun x => q (k x)).map k
+  | [], [], _ => rfl
+  | [], _ :: _, h => by simp at h
+  | _ :: _, [], h => by simp at h
+  | x' :: l', x :: l, h => by
+    simp only [List.map_cons, List.cons.injEq] at h
+    have ih := filter_map_key k q l' l h.2
+    simp only [List.filter_cons, h.1]
+    split
+    · simp only [List.map_cons, h.1, ih]
+    · exact ih
+
+/-- dominance as a function of the keys -/
+def domKey (ks : List (List Nat × String × Bool × Bool × Bool)) (kx : List Nat × String × Bool × Bool × Bool) : Bool :=
+  ks.all fun o => o.1 == kx.1 || o.2.1 != kx.2.1 ||
+    (decide (kx.1.length < o.1.length) || (kx.1.length == o.1.length && kx.2.2.1 && !o.2.2.1))
+
+theorem isDominant_eq_domKey (all : List TField) (x : TField) : isDominant all x = domKey (all.map tkey) (tkey x) := by
+  unfold isDominant domKey
+  rw [List.all_map]
+  rfl
+
+theorem typeFields_erase_key (fs : List (FieldE GoTypeE)) :
+    (typeFields (eraseFieldsE fs)).map tkey = (typeFields fs).map tkey := by
+  unfold typeFields
+  have hk := candidates_erase_key _ fs [] 0 (Nat.le_refl _)
+  have h1 : isDominant (candidates [] 0 (eraseFieldsE fs)) = fun x => domKey ((candidates [] 0 fs).map tkey) (tkey x) :=
+    funext fun x => by rw [isDominant_eq_domKey, hk]
+  have h2 : isDominant (candidates [] 0 fs) = fun x => domKey ((candidates [] 0 fs).map tkey) (tkey x) :=
+    funext fun x => isDominant_eq_domKey _ x
+  rw [h1, h2]
+  exact filter_map_key tkey (domKey ((candidates [] 0 fs).map tkey)) _ _ hk
+
+/-- the JSON names json.Marshal emits, and the always-written ones, do not depend on declared types in non-embedded
+    positions -/
+theorem fieldNames_erase (fs : List (FieldE GoTypeE)) :
+    fieldNames (eraseFieldsE fs) = fieldNames fs ∧ alwaysFieldNames (eraseFieldsE fs) = alwaysFieldNames fs := by
+  have hk := typeFields_erase_key fs
+  constructor
+  · unfold fieldNames
+    have : ∀ l : List TField, l.map (·.name) = (l.map tkey).map (·.2.1) := fun l => by rw [List.map_map]; rfl
+    rw [this, this, hk]
+  · unfold alwaysFieldNames
+    have h1 := filter_map_key tkey (fun kx => !kx.2.2.2.1 && !kx.2.2.2.2) _ _ hk
+    have : ∀ l : List TField, l.map (·.name) = (l.map tkey).map (·.2.1) := fun l => by rw [List.map_map]; rfl
+    rw [this, this]
+    exact congrArg (List.map (·.2.1)) h1
+
 end EncJsonEmb
+
+namespace Go
+open EncJsonEmb EncJson
+
+theorem noOverride_erase {opts : IOpts} {fs : List (FieldE GoTypeE)} (h : NoOverride opts (visibleFields fs)) :
+    NoOverride opts (visibleFields (eraseFieldsE fs)) := by
+  rw [visibleFields_erase]
+  intro f hf ha
+  obtain ⟨g, hg, rfl⟩ := List.mem_map.1 hf
+  have ha' : g.anonymous = true := ha
+  have : (eraseV g).type = eraseEmbE g.type := by simp [eraseV, ha']
+  rw [this, typeNameE_eraseEmbE]
+  exact h g hg ha'
+
+end Go
 end JSV
